@@ -17,6 +17,7 @@ import (
 	"flag"
 	"fmt"
 	"os"
+	"os/exec"
 	"runtime"
 	"runtime/debug"
 	"sort"
@@ -40,7 +41,23 @@ var (
 	onlyFam    = flag.String("family", os.Getenv("C01_FAMILY"), "run only these families (comma separated letters/names)")
 )
 
-const hangLimit = 60 * time.Second
+var hangLimit = 60 * time.Second
+
+// confirmHang replays a case that produced no verdict in a fresh process (with a
+// shorter limit: a verification takes well under a millisecond there).
+func confirmHang(rep caseJ, key string) bool {
+	dir := ev.Scratch("c01-confirm")
+	defer os.RemoveAll(dir)
+	f := dir + "/case.json"
+	b, _ := json.Marshal(map[string]interface{}{"key": key, "replay": rep})
+	if err := os.WriteFile(f, b, 0o644); err != nil {
+		ev.HarnessError("%v", err)
+	}
+	cmd := exec.Command(os.Args[0], "--replay", f)
+	cmd.Env = append(os.Environ(), "C01_HANG_LIMIT=20s")
+	out, _ := cmd.CombinedOutput()
+	return strings.Contains(string(out), "did not return within")
+}
 
 // ---------------------------------------------------------------------------
 // flags: refscript.Flags use Core's names; gocoin's VER_* are mapped by name.
@@ -129,6 +146,8 @@ type Case struct {
 	Flags refscript.Flags
 	FName string
 	order int64
+	// inputs verified before this one, in this order, on the same transaction object (family obj)
+	shared []int
 }
 
 type hexb []byte
@@ -190,6 +209,9 @@ func (c *Case) toJ(ref, impl string) caseJ {
 	}
 	for _, w := range c.Tx.In[c.Idx].Witness {
 		j.Witness = append(j.Witness, hexb(w))
+	}
+	if c.shared != nil {
+		j.SharedOrder = append(append([]int{}, c.shared...), c.Idx)
 	}
 	return j
 }
@@ -420,8 +442,15 @@ func newPool(r *ev.Run, col *collector) *pool {
 				if t != 0 && time.Since(time.Unix(0, t)) > hangLimit {
 					c, _ := w.cur.Load().(*Case)
 					if c != nil {
-						col.report(0, c.Fam+"/"+c.Tag+"/no-verdict-within-60s", c.Label+": VerifyTxScript did not return within 60 s", c.toJ("?", "no verdict"))
-						finish(r, col, false)
+						key := c.Fam + "/" + c.Tag + "/no-verdict-within-60s"
+						rep := c.toJ("?", "no verdict")
+						if confirmHang(rep, key) {
+							col.report(0, key, c.Label+": VerifyTxScript did not return within 60 s (confirmed in a fresh process)", rep)
+							finish(r, col, false)
+						}
+						// not reproducible in a fresh process: never a verdict
+						atomic.StoreInt64(&w.since, 0)
+						r.Unrepro = append(r.Unrepro, key+": no verdict within 60 s in the explorer, but a verdict in a fresh process: "+c.Label)
 					}
 				}
 			}
@@ -519,6 +548,11 @@ func replay(file string) {
 		c.Spent = append(c.Spent, reftx.Out{Value: s.Value, Script: s.Script})
 	}
 	ref := refVerdict(c)
+	if v := os.Getenv("C01_HANG_LIMIT"); v != "" {
+		if d, err := time.ParseDuration(v); err == nil {
+			hangLimit = d
+		}
+	}
 	done := make(chan struct{})
 	var impl bool
 	var pan string
